@@ -131,6 +131,10 @@ def completeness(tree, text, datum) -> t.Optional[str]:
                 shown = ''
             if shown not in text[pos:]:
                 return f"offending value {shown[:60]!r} is not shown"
+            # the value AS IT WAS GIVEN: where the datum holds a plain string at this path, that very text must be shown (a
+            # converter may normalise a string before parsing it, but the user typed the original)
+            if cands and all(type(c) is str for c in cands) and not any(c in text[pos:] for c in cands):
+                return f"offending value {cands[0][:60]!r} is not shown as it was given (the text shows {shown[:60]!r})"
         cause = getattr(node, 'cause', None)
         if cause is not None:
             for ln in cause_lines(cause):
